@@ -168,7 +168,7 @@ def main():
         lean = run.lean or {}
         print(f"[{prop}] tier={tier} seed={seed} theorems={len(lean.get('theorems', []))} proofs_ok={lean.get('proofs_ok')} "
               f"corr_ops={len(run.ops)} disagree={run.stats.get('corr_disagree', 0)} cases={run.stats.get('evaluations', 0)} "
-              f"probe_failures={len(run.failures)} wall={time.time() - run.t0:.1f}s")
+              f"probe_failures={len(run.failures)} workload={run.digest()} wall={time.time() - run.t0:.1f}s")
         sys.exit(rc)
     except SystemExit:
         raise
